@@ -272,7 +272,9 @@ def disk_kind(name):
 CONFUSABLE = ["bin", "txt", "bas", "BAS", "Bin", "TXT", "auto", "bat", "AUTO", "auto.bas", "auto.bat", "AUTO.BAT", "Auto.Bat", "x.bat",
               "bas.txt", "txt.bin", "bin.bas", "bat.bas,a", "bas.bas,a", "autox.bat", "auto.ba", "csv", "dat", "a", "1", "12345678.123", "0.0",
               # leading and inner blanks are ordinary name characters (trailing ones are indistinguishable from the field padding: not generated)
-              " a.txt", "  b.dat", "a b.bas", " a. b"]
+              " a.txt", "  b.dat", "a b.bas", " a. b",
+              # the base name starts with the dot: empty catalog name, the rest is the extension
+              ".bas", ".x", ".ab"]
 
 
 def gen_disk_name(rng, used):
